@@ -136,7 +136,8 @@ def run(ctx):
                 outcome_by_leaf[leaf]["dropped-silently"] += 1
                 nfind += 1
                 ctx.finding(sig_for(m, "dropped-silently"),
-                            f"{m['path']}: value {m['value']!r} is not rendered (the benign {m['benign']!r} is) "
+                            f"{m['path']}: value {m['value']!r} is not rendered (the benign {m['benign']!r} is"
+                            f"{', with ' + m['gate'] if m.get('gate') else ''}) "
                             f"and no status condition reports it", {"meta": m, "verdict": v})
             elif m["reaches"]:
                 verdicts["rejected-with-status"] += 1
@@ -154,11 +155,12 @@ def run(ctx):
         elif v.startswith("fail "):
             parts = v.split(" ", 4)
             clause = parts[1]
+            gate = f", with {m['gate']}" if m.get("gate") else ""
             verdicts["fail-" + clause] += 1
             outcome_by_leaf[leaf]["FAIL-" + clause] += 1
             nfind += 1
             ctx.finding(sig_for(m, clause),
-                        f"{m['path']} = {m['value']!r} ({m['base']}/{m['variant']}): {clause} in {parts[2]}: "
+                        f"{m['path']} = {m['value']!r} ({m['base']}/{m['variant']}{gate}): {clause} in {parts[2]}: "
                         f"{parts[4] if len(parts) > 4 else ''}", {"meta": m, "verdict": v})
         else:
             ctx.broken(f"judge could not decode case {cid}: {v}")
